@@ -6,14 +6,16 @@ import json
 import os
 import random
 
-from .. import casing, common as c, corpus, l2, translate, namebins
+from .. import casing, common as c, corpus, l2, translate, namebins, rs2lean
 
 THEOREMS = [("Sylvia.Thm.C05", "C05." + t) for t in
             ["terminates", "panic_sound", "complete", "spec", "rejects_iff", "spec_bytes"]] + \
+           [("Sylvia.Thm.C05Refine", "C05R." + t) for t in
+            ["main_loop", "top", "code_spec", "code_panic_sound", "code_spec_bytes", "gnai_eq", "vnc_eq", "should_end_eq", "init_eq", "upd_abs"]] + \
            [("Sylvia.Lemmas.Inter4", "Inter.nextIndex_ongoing"), ("Sylvia.Lemmas.Lex", "Lex.strictTotal"),
             ("Sylvia.Thm.C05Gen", "C05.nameList_sorted"), ("Sylvia.Thm.C05Gen", "C05.nameList_are_wire_names"),
             ("Sylvia.Thm.C05Gen", "C05.nameList_length"), ("Sylvia.Thm.Obl.Published", "Obl.published_rule_is_wire_rule")] + \
-           [("Sylvia.Thm.Obl.Wrapper", "Obl.wrapper_forms"), ("Sylvia.Thm.Obl.Tables", "Obl.extraction_complete")]
+           [("Sylvia.Thm.Obl.Wrapper", "Obl.wrapper_forms"), ("Sylvia.Thm.Obl.Complete.C05", "Obl.extraction_complete_C05")]
 
 
 def hexs(b):
@@ -66,13 +68,20 @@ def oracle(tup):
 
 def run(ctx):
     ctx.assumptions += [
-        "model Inter.assertNoIntersection corresponds to sylvia::utils::assert_no_intersection (checked by the L3 stream on every run)",
+        "Extracted.Utils.* is regenerated from sylvia/src/utils.rs by the function translator (vlib/rs2lean.py) on every run; C05R.code_spec is proved about that regenerated code, by refinement to the zipper model Inter.*; the translator itself is validated by running the regenerated code next to the real const fn (stream L3-inter-regenerated)",
+        "Rust semantics assumed by the translation: usize arithmetic does not overflow (Nat), array indexing panics out of bounds, const generic N equals the length of the argument array",
         "konst::cmp_str / eq_str are byte-wise lexicographic order / equality (validated by the stream incl. non-ASCII names)",
         "a panic during const evaluation is a compile error (Rust semantics)",
     ]
     ctx.cov["trusted_base"] = ["Lean 4.33 kernel", "axioms: propext, Classical.choice, Quot.sound only (audited)",
                                "correspondence harness harness/rt (Rust) + svmodel driver", "python oracle for disjointness"]
     translate.regenerate()
+    # function translator: sylvia/src/utils.rs -> Extracted/UtilsFns.lean; the refinement theorems of Thm/C05Refine.lean
+    # are re-checked against what it produced from the current source
+    fn_problems = rs2lean.regenerate()
+    ctx.cov["function_translator"] = {"source": "sylvia/src/utils.rs", "output": "lean/Sylvia/Extracted/UtilsFns.lean", "problems": fn_problems}
+    if fn_problems:
+        ctx.obligation_failed("function-translator", "; ".join(fn_problems)[:1500])
     c.prove(ctx, sorted({m for m, _ in THEOREMS}), THEOREMS)
 
     exe = c.build_rt()
@@ -81,6 +90,11 @@ def run(ctx):
     impl = c.run_lines(exe, ops)
     model = c.run_driver(ops)
     c.diff_streams(ctx, "L3-inter", ops, impl, model)
+    # the regenerated functions themselves, run by the driver on the same tuples (validates the function translator)
+    modelx = c.run_driver(["interx " + spec_of(t) for t in tuples])
+    nx = c.diff_streams(ctx, "L3-inter-regenerated", ops, impl, modelx)
+    ctx.cov["streams"]["L3-inter-regenerated"] = {"evaluations": len(ops), "distinct_nontrivial": 0, "disagreements": nx,
+                                                  "what": "Extracted.Utils.assert_no_intersection (regenerated from source) vs the real const fn"}
     bad = 0
     nontrivial = set()
     for t, op, r in zip(tuples, ops, impl):
